@@ -1119,7 +1119,7 @@ def body_ctx(data) -> Outcome:
     return out
 
 
-def campaigns(tier):
+def _base_campaigns(tier):
     return [
         Campaign("history", body_history, histories(), quick=10000, thorough=160000,
                  describe="twin pipelines (cached / uncached) x histories of calls and mutations"),  # fmt: skip
@@ -1134,3 +1134,12 @@ def campaigns(tier):
 
 
 PREDICATES = {}
+
+
+def campaigns(tier):
+    camps = list(_base_campaigns(tier))
+    if tier == "thorough":  # coverage-guided search over the same structured cases (fuzz/hyp_fuzz.py)
+        from vlib.core import cov_fuzz_campaign
+
+        camps.append(cov_fuzz_campaign(PID, [('history', 6000)]))
+    return camps
